@@ -2804,10 +2804,17 @@ public:
     }
 
     friend std::istream &operator>>(std::istream &is, locked_table &lt) {
-      is >> lt.buckets();
+      // Read into a temporary container, so that the locks array can be
+      // resized before the new hashpower becomes visible: a thread that grabs
+      // the new hashpower with the old (smaller) locks array would index past
+      // the end of that array.
+      typename std::remove_reference<decltype(lt.buckets())>::type new_buckets(
+          0, lt.get_allocator());
+      is >> new_buckets;
 
       // Re-size the locks, and set the size to the stored size
-      lt.maybe_resize_locks(lt.bucket_count());
+      lt.maybe_resize_locks(new_buckets.size());
+      lt.buckets().swap(new_buckets);
       for (auto &lock : lt.get_current_locks()) {
         lock.elem_counter() = 0;
       }
